@@ -35,7 +35,7 @@ fn scan_events(sc: &Scanner, text: &str, sc_handle: usize, inp_id: usize, it_han
         let m = it.next();
         let mode = scnr::ScannerModeSwitcher::current_mode(&it);
         match m {
-            Some(m) => out.push(json!({"op": "next", "it": it_handle, "res": [m.token_type(), m.start(), m.end()], "mode": mode})),
+            Some(m) => out.push(json!({"op": "next", "it": it_handle, "res": [crate::ttmap::abs(m.token_type()), m.start(), m.end()], "mode": mode})),
             None => {
                 out.push(json!({"op": "next", "it": it_handle, "res": [], "mode": mode}));
                 break;
